@@ -1,16 +1,20 @@
 """C11 - batch results align with inputs and do not depend on batch history.
 
-Coq: P_C11.v (chunking/collection, memo state machine, id-independence of the search, failure locality).
-Correspondence: Glue.chunks vs depccg.parsing._chunks (exact, exception included); the memo state machine of GlueMemo.v
-replayed on the recorded invocations of the user's rule functions vs the category table and the C++ cache entries the real
-call ended with.
+Coq: P_C11.v (chunking/collection, memo state machine, id-independence of the search, the search reading the memo
+incrementally = the category-level search from every memo state, the batch loop end to end, the wrapper run: shapes first,
+chunked = unchunked, failure locality).
+Correspondence: GlueMemo.chunks_py vs depccg.parsing._chunks (exact, ValueError of the empty list included); the memo state
+machine of GlueMemo.v replayed on the recorded invocations of the user's rule functions vs the category table and the C++
+cache entries the real call ended with; the wrapper model GlueMemoRun.run vs the real depccg.parsing.run with
+depccg._parsing.run replaced by a probe that reports how it was called (which branch, which chunks, which process ids,
+which exception - multiprocessing.Pool included).
 Oracle (independent, on the real depccg.parsing.run through the shim, multiprocessing.Pool included): alignment, equality
 with parsing alone / warmed / elsewhere, failure locality, shape rejection before any rule callback."""
 import math, multiprocessing, time, types
 import numpy
 import glue, gen
 import depccg_verif_rt as rt
-from gallina import lit, gcat, gbool, gnat
+from gallina import lit, gcat, gbool, gnat, glist
 from depccg.cat import Category
 from depccg.types import Token, ScoringResult, CombinatorResult
 
@@ -394,7 +398,7 @@ def malformed(ctx, P, count):
 
 # ---------------------------------------------------------------------------------------------------------
 def chunk_checks(ctx, P):
-    """model Glue.chunks vs the real _chunks (exact), plus the property restated on the real function"""
+    """model GlueMemo.chunks_py vs the real _chunks (exact, the ValueError of the empty list included), plus the property restated on the real function"""
     cases, descr = [], []
     for L in range(0, 61):
         for k in range(0, 9):
@@ -417,6 +421,112 @@ def chunk_checks(ctx, P):
             elif any(not c for c in got):
                 ctx.fail('chunks_empty', f'_chunks(range({L}), {k}) has an empty chunk', {'len': L, 'num_chunks': k, 'chunks': got})
     ctx.coq_cases('chunks', PRE, cases, chunk=140, describe=lambda i: descr[i])
+
+
+# ---------------------------------------------------------------------------------------------------------
+# the wrapper depccg.parsing.run against GlueMemoRun.run: the parser is replaced by a probe
+PRE_RUN = '''From Coq Require Import List NArith ZArith Bool Arith.
+Import ListNotations.
+Require Import Cat Filter GlueMemoRun.
+Open Scope N_scope.
+'''
+_PROBE_FAIL = False     # module-level: forked workers inherit it
+
+
+def _probe_run(doc, scoring_results, categories, apply_binary_rules, apply_unary_rules, possible_root_cats, process_id=0, **kwargs):
+    """stands in for depccg._parsing.run: per sentence (process_id, num_tags, sentences in this call, tokens)"""
+    if _PROBE_FAIL:
+        raise RuntimeError('probe-inner')
+    assert len(doc) == len(scoring_results)
+    return [[(int(process_id), int(kwargs['num_tags']), len(doc), len(tokens))] for tokens in doc]
+
+
+def _gmat(a):
+    rows = ['[' + ';'.join(str(int(v)) for v in r) + ']' for r in a]
+    return f'(mkMat {a.shape[1]}%nat ([' + ';'.join(rows) + '])%Z)'
+
+
+def _gsc(sr):
+    return f'(mkSc {_gmat(sr[0])} {_gmat(sr[1])})'
+
+
+def wrapper_checks(ctx, P, count):
+    global _PROBE_FAIL
+    import depccg._parsing as DP
+    rng = ctx.rng
+    cats = [Category.parse(c) for c in ('S', 'N', 'NP', 'S/NP', 'N/N')]
+    z = lambda r, c: numpy.array([[rng.randint(-9, 9) for _ in range(c)] for _ in range(r)], dtype=numpy.float32).reshape((r, c))      # noqa
+    cases, descr = [], []
+    orig = DP.run
+    DP.run = _probe_run
+    try:
+        for it in range(count):
+            K = rng.choice([1, 3, 5])
+            N = rng.choice([0, 1, 1, 2, 3, 4, 5, 7])
+            words = [[rng.choice(['a', 'the', 'Dog', 'ü', '猫']) for _ in range(rng.choice([0, 1, 1, 2, 3]) if rng.random() < 0.15 else rng.randint(1, 3))] for _ in range(N)]
+            doc = [[Token.of_word(w) for w in ws] for ws in words]
+            scores = [ScoringResult(z(len(ws), K), z(len(ws), len(ws) + 1)) for ws in words]
+            what = rng.choice(['ok'] * 9 + ['single', 'tag_rows', 'dep_shape', 'score_count', 'tag_columns', 'tag_columns_all', 'tokens_vs_rows', 'form_mismatch'])
+            j = rng.randrange(N) if N else 0
+            n = len(words[j]) if N else 0
+            dform = sform = 'many'
+            if N and what == 'tag_rows':
+                scores[j] = ScoringResult(z(n + rng.choice([1, 2]), K), scores[j][1])
+            elif N and what == 'dep_shape':
+                r, c = rng.choice([(n, n), (n, n + 2), (n + 1, n + 1), (n + 1, n + 2)])
+                scores[j] = ScoringResult(scores[j][0], z(r, c))
+            elif N and what == 'score_count':
+                scores = scores + [scores[-1]] if rng.random() < 0.5 else scores[:-1]
+            elif N and what == 'tag_columns':
+                scores[j] = ScoringResult(z(n, K + 1), scores[j][1])
+            elif N and what == 'tag_columns_all':
+                scores = [ScoringResult(z(len(ws), K + 1), s[1]) for ws, s in zip(words, scores)]
+            elif N and what == 'tokens_vs_rows':
+                scores[j] = ScoringResult(z(n + 1, K), z(n + 1, n + 2))
+            elif N and what == 'form_mismatch':
+                if rng.random() < 0.5:
+                    dform = 'one'
+                else:
+                    sform = 'one'
+            elif N and what == 'single':
+                dform = sform = 'one'
+            if (dform == 'one' and not words[0]) or (sform == 'one' and not scores):
+                continue        # DocOne [] / no score to pass: covered by C17's stream
+            doc_arg = doc[0] if dform == 'one' else doc
+            sc_arg = scores[0] if sform == 'one' else scores
+            mcs = rng.choice([-1, 0, 1, 2, 3, 3, 100])
+            procs = rng.choice([-1, 0, 1, 2, 2, 3, 4])
+            _PROBE_FAIL = rng.random() < 0.12
+            try:
+                res = P.run(doc_arg, sc_arg, cats[:K], [cats[0]], None, None, processes=procs, max_chunk_size=mcs)
+                real = 'OOk [' + ';'.join('(%d,%d,%d,%d)%%nat' % tuple(q) for r in res for q in r) + ']'
+                kind = 'ok:pool' if any(q[0] > 0 or q[2] < len(res) for r in res for q in r) else 'ok:in-process'
+            except IndexError:
+                real, kind = 'OErr 1%nat', 'IndexError'
+            except RuntimeError as e:
+                real, kind = ('OErr 4%nat', 'parser raised') if str(e) == 'probe-inner' else ('OErr 2%nat', 'RuntimeError(_type_check)')
+            except ValueError:
+                real, kind = 'OErr 3%nat', 'ValueError(Pool)'
+            except Exception as e:      # noqa  - outside the model: reported as a disagreement
+                real, kind = None, 'other:' + type(e).__name__
+            ctx.count(f'wrapper:{kind}')
+            ctx.case(('wrapper', it, what, N, mcs, procs, _PROBE_FAIL), nontrivial=N > 1)
+            gd = f'(DocOne {glist(words[0], lit)})' if dform == 'one' else f'(DocMany {glist(words, lambda w: glist(w, lit))})'
+            gs = f'(ScOne {_gsc(scores[0])})' if sform == 'one' else f'(ScMany {glist(scores, _gsc)})'
+            cases.append('false' if real is None else f'run_agrees {gbool(_PROBE_FAIL)} {K}%nat {gd} {gs} ({mcs})%Z ({procs})%Z ({real})')
+            descr.append({'what': what, 'sentences': N, 'lengths': [len(w) for w in words], 'doc_form': dform, 'scores_form': sform, 'max_chunk_size': mcs,
+                          'processes': procs, 'parser_raises': _PROBE_FAIL, 'real': real, 'kind': kind})
+            # the property restated on the real wrapper: well-formed, parser fine, processes >= 1 => one result per sentence, in order, whatever the schedule
+            if what == 'ok' and N and all(words) and not _PROBE_FAIL and (procs >= 1 or N <= mcs):
+                if kind.startswith('ok'):
+                    if [q[3] for r in res for q in r] != [len(w) for w in words] or len(res) != N:
+                        ctx.fail('wrapper_misaligned', f'run returned results for sentences of lengths {[q[3] for r in res for q in r]}, the batch has {[len(w) for w in words]}', descr[-1])
+                else:
+                    ctx.fail('wrapper_rejected_wellformed', f'run raised {kind} on a well-formed batch (processes={procs}, max_chunk_size={mcs})', descr[-1])
+    finally:
+        DP.run = orig
+        _PROBE_FAIL = False
+    ctx.coq_cases('wrapper', PRE_RUN, cases, chunk=max(1, len(cases) // 16 + 1), describe=lambda i: descr[i])
 
 
 def memo_checks(ctx, P, count):
@@ -516,6 +626,7 @@ def run(ctx):
     try:
         chunk_checks(ctx, P)
         memo_checks(ctx, P, 24 if ctx.quick else 240)
+        wrapper_checks(ctx, P, 240 if ctx.quick else 2400)
         malformed(ctx, P, 40 if ctx.quick else 400)
         rng = ctx.rng
         if ctx.quick:
@@ -536,7 +647,9 @@ def run(ctx):
     finally:
         P.time = real_time
     ctx.trusted += ['memo model coq/GlueMemo.v (tied to parsing.pyx/parsing.h: replay of the recorded rule-function invocations gives the real final category table and the real cache entries)',
-                    'chunk model coq/Glue.v chunks (tied to parsing.py _chunks exactly for all lengths 0..60 x 0..8 chunks; chunks_py adds the ValueError of the empty list)',
+                    'chunk model coq/GlueMemo.v chunks_py (tied to parsing.py _chunks exactly for all lengths 0..60 x 0..8 chunks, the ValueError of the empty list included)',
+                    'wrapper model coq/GlueMemoRun.v run (tied to parsing.py run with depccg._parsing.run replaced by a probe: branch taken, chunk sizes, process ids, result order, exception class for well-formed and malformed inputs, processes -1..4, max_chunk_size -1..100, real multiprocessing.Pool); its _type_check part is coq/Filter.v (tied in C17)',
+                    'search-under-memo model coq/GlueMemoSearch.v mreach: composition of AStarImpl.jstep (tied by pop-trace validation) and GlueMemo.memo_step (tied by the replay above); the order of the lookups within one loop iteration is left free in the model',
                     'implementation-level search model coq/AStarImpl.v (tied to parsing.h by trace validation in C01/C02/C09/C10/C16)',
                     'harness/decy.py + depccg_verif_rt.py + driver.cpp (running parsing.pyx / parsing.h for real)']
     return ctx.finish(
@@ -547,7 +660,7 @@ def run(ctx):
              'non-trivial = a multi-token sentence compared at a position/history other than alone; distinct by (scenario, schedule, position)',
         assumptions=['what the model cannot exhibit - OS scheduling of the worker processes and pickling of arguments/results inside multiprocessing - is exercised (Pool really forks; slow first chunks make later chunks finish first), not proved',
                      'the wait loop of depccg.parsing.run naps with time.sleep(1); the harness shortens the nap to 20 ms (pacing only)',
-                     'the search is history-independent up to the names (ids) of categories (AStarEquiv); equal-priority pops are resolved by the same deterministic heap in every history, which the oracle confirms on rows with equal scores; the order of equal tag scores is by lexical id = position in the input category list, which no history changes',
+                     'the set of possible results of a sentence is proved history-independent end to end (C11_batch_equals_alone, C11_same_sentence_same_result_under_any_history); WHICH of several equal-priority pops the std::priority_queue takes is not modelled: that the same heap makes the same choice in every history is confirmed by the oracle on rows with equal scores, not proved; the order of equal tag scores is by lexical id = position in the input category list, which no history changes',
                      'an element-type mismatch (float64) is detected when the sentence is reached, not up front: checked only as "raises; nothing parsed if it is the first sentence"',
-                     'Glue.chunks totalises the empty list (Python raises ValueError from range(0, 0, 0)); depccg.parsing.run never reaches _chunks with an empty document (doc[0] fails first)',
+                     'depccg._parsing.run is a parameter of the wrapper model; "per sentence" (C11_chunked_equals_unchunked) is what C11_batch_equals_alone says of its loop up to the tie-breaking above',
                      'math.ceil(len/num) is float division in Python, integer ceiling in the model: identical for every list a machine can hold below 2^53 elements'])
